@@ -230,6 +230,13 @@ def validate_translator(ctx, n):
             x, y = float(round(x)), float(round(y))
         args.append((x, y, c))
         lines.append("leaf " + " ".join([f2h(x), f2h(y)] + enc_comps([c])))
+    # amp == 0 (outside C04's range, amp != 0, so never judged against the property): only the tie between the
+    # regenerated definitions and the code — both give NaN for model/amp, or both take the `amp == 0` special case
+    for _ in range(4):
+        c = (0.0,) + rand_comp(rng, 10, 10)[1:]
+        x, y = float(rng.randint(0, 9)), float(rng.randint(0, 9))
+        args.append((x, y, c))
+        lines.append("leaf " + " ".join([f2h(x), f2h(y)] + enc_comps([c])))
     outs = ctx.driver.batch(lines)
     worst = 0.0
     for (x, y, c), o in zip(args, outs):
@@ -237,9 +244,10 @@ def validate_translator(ctx, n):
         if len(got) != 7:
             raise common.LeanError(f"translator validation: driver answered {o!r}")
         p = mk_params([c], [63])
-        want = [float(fitting.elliptical_gaussian(x, y, *c))] + \
-            [float(v) for v in fitting.jacobian(p, np.array([x]), np.array([y]))[:, 0]]
-        scale = abs(c[0])
+        with np.errstate(all='ignore'):
+            want = [float(fitting.elliptical_gaussian(x, y, *c))] + \
+                [float(v) for v in fitting.jacobian(p, np.array([x]), np.array([y]))[:, 0]]
+        scale = max(abs(c[0]), 1.0)
         k = agree(got, want, scale)
         ctx.count('translator-validation')
         names7 = ['gauss', 'dmds', 'dmdxo', 'dmdyo', 'dmdsx', 'dmdsy', 'dmdtheta']
@@ -257,7 +265,7 @@ def validate_translator(ctx, n):
                 ['gauss', 'dmds', 'dmdxo', 'dmdyo', 'dmdsx', 'dmdsy', 'dmdtheta'][k] +
                 f" at Float = {got[k]!r} but the Python gives {want[k]!r} for x={x!r} y={y!r} comp={c!r}")
         with np.errstate(all='ignore'):
-            worst = max(worst, float(np.nanmax(np.abs(got - np.array(want)) / (np.abs(want) + 1e-13 * scale))))
+            worst = max(worst, float(np.nanmax(np.nan_to_num(np.abs(got - np.array(want)) / (np.abs(want) + 1e-13 * scale)))))
     ctx.extra['translator_validation'] = dict(points=n, worst_relative_difference=worst)
 
 
@@ -1021,6 +1029,12 @@ def leaf_spec_probe(ctx, npts):
     for _ in range(npts):
         c = rand_comp(rng, 10, 10)
         pts.append((float(rng.randint(0, 9)), float(rng.randint(0, 9)), c))
+    # a source that special-cases amp == 0 claims the derivative there too (theorem hasDerivAt_amp_everywhere);
+    # amp == 0 is outside C04's own range, so it is probed only then
+    if ctx.driver.batch(['ampzero'])[0].strip() == '1':
+        ctx.extra['amp_zero_special_case'] = 'present in the source: amplitude derivative probed at amp = 0 as well'
+        for _ in range(5):
+            pts.append((float(rng.randint(2, 7)), float(rng.randint(2, 7)), (0.0,) + rand_comp(rng, 10, 10)[1:]))
     res = leaf_probe(ctx, fitting, pts)
     found = {}
     for (x, y, c), (impl, truth, fd, g, tg) in zip(pts, res):
@@ -1030,7 +1044,7 @@ def leaf_spec_probe(ctx, npts):
                      f"elliptical_gaussian = {g!r}, the Gaussian of the property is {tg!r}",
                      dict(site='fitting.elliptical_gaussian', what='model'))
             return True
-        for k in leaf_bad(impl, truth, fd, abs(c[0])):
+        for k in leaf_bad(impl, truth, fd, max(abs(c[0]), 1.0)):
             found.setdefault(k, (x, y, c, k))
     for k in sorted(found):
         x, y, c, k = shrink_leaf(ctx, fitting, *found[k])
@@ -1078,10 +1092,10 @@ def shrink_leaf(ctx, fitting, x, y, c, k):
     cur = (x, y, tuple(c))
 
     def fails(x, y, c):
-        if c[3] == 0 or c[4] == 0 or c[0] == 0:
+        if c[3] == 0 or c[4] == 0:
             return False
         (impl, truth, fd, g, tg), = leaf_probe(ctx, fitting, [(x, y, c)])
-        return k in leaf_bad(impl, truth, fd, abs(c[0]))
+        return k in leaf_bad(impl, truth, fd, max(abs(c[0]), 1.0))
     for digits in (0, 1):
         cand = (cur[0], cur[1], tuple(round(v, digits) for v in cur[2]))
         if cand[2][3] != cand[2][4] and fails(*cand):
@@ -1099,7 +1113,7 @@ def replay(ctx, rec):
         (impl, truth, fd, g, tg), = leaf_probe(ctx, fitting, [(c['x'], c['y'], comp)])
         k = PARS.index(c['entry'])
         ctx.case(c, nontrivial_key=('leaf', c['entry']))
-        if k in leaf_bad(impl, truth, fd, abs(comp[0])):
+        if k in leaf_bad(impl, truth, fd, max(abs(comp[0]), 1.0)):
             ctx.fail('spec', c, f"fitting.jacobian d/d{c['entry']} = {impl[k]!r}; verified derivative {truth[k]!r}; "
                                 f"finite difference {fd[k]!r}", rec.get('signature'))
         return
